@@ -85,6 +85,23 @@ def _both_queues_on_change(ctx, crate, b, store_bb, new_role_pred, key, idrole_h
         ok0 = b.must_pass([0], [store_bb], {sb}) or b.must_pass(b.after(store_bb), b.return_blocks(), {sb})
         ctx.check(ok0, "change-test-unconditional:" + key, "every path that stores a datum in %s also compares it with the old one" % C.short(b.id),
                   "in %s a path stores the joined datum and returns without comparing it with the old one (the change test sits behind another condition): a changed datum is not propagated to the parents and Analysis::modify is not triggered" % C.short(b.id), where_of(b, sb))
+        # "changed" means: different from what the class that receives the store held before — the other operand of the comparison is
+        # the previous datum of that very class (not of the class merged into it: join(from, to) == from says nothing about `to`)
+        if store_stmt is not None:
+            def id_args(r):
+                out = set()
+                for z in role_walk(r):
+                    if isinstance(z, tuple) and z[0] == "call" and z[1] in ("analysis_data", "analysis_data_mut", "get", "get_mut", "index", "index_mut") and z[3]:
+                        out.add(role_str(strip_role(z[3][-1])))
+                return out
+            oldop = y if role_mentions_call(x, "merge") else x
+            if not role_mentions_call(oldop, "merge"):
+                tg = id_args(b.role_of_local(store_stmt["lhs"]["l"]))
+                og = id_args(oldop)
+                if tg and og:
+                    ctx.check(bool(tg & og), "change-test-against-receiver:" + key, "the new datum is compared with the previous datum of the class it is stored in",
+                              "in %s the change test compares the joined datum with the datum of %s, but the join is stored in the class %s: whenever the other class had the better datum the join equals it, the test says `unchanged`, and the receiving class's parents keep data computed from its old datum (no re-queue, no modify)" % (C.short(b.id), sorted(og), sorted(tg)),
+                              where_of(b, sb))
         ok1 = bool(pushes) and b.must_pass(changed, b.return_blocks(), pushes)
         ok2 = bool(rqs) and b.must_pass(changed, b.return_blocks(), rqs)
         ctx.check(ok1, "modify-queue-on-change:" + key, "when the datum changed the class is pushed to modify_queue",
